@@ -149,12 +149,22 @@ Proof. exact a64_jump_ok. Qed.
 Print Assumptions C07_selection_jump.
 Theorem C07_selection_add_and_jump :
   forall (im : image) (s : astate) (sp : Z) (t : atemp) (i addr : Z),
-    frame_ok s sp -> operand_ok t -> lget s sp t = Some addr ->
+    frame_ok s sp -> operand_ok t -> lget s sp t = Some addr -> (add_imm_fits i = false -> in64 i) ->
     exists s', run_straight im (removelast (a_add_and_jump t i)) s = MOk s' /\
                step im (last (a_add_and_jump t i) RET) s' = goto_addr im s' (wrap (addr + i)) /\
                heap s' = heap s /\ out s' = out s.
 Proof. exact a64_add_and_jump_ok. Qed.
 Print Assumptions C07_selection_add_and_jump.
+(* the offset of the table dispatch: an ADD immediate when it has 12 bits, else synthesised in X3 (TEMP2) - the repair
+   of the finding "tag dispatch immediate" (docs/C14.md); only the target register and X3 change *)
+Theorem C07_selection_add_offset :
+  forall (im : image) (s : astate) (n : N) (i a : Z),
+    gp (X n) -> n <> 3%N -> xget s n = Some a -> (add_imm_fits i = false -> in64 i) ->
+    exists s', run_straight im (add_offset (X n) i) s = MOk s' /\ xget s' n = Some (wrap (a + i)) /\
+               (forall m, m <> n -> m <> 3%N -> xget s' m = xget s m) /\
+               spv s' = spv s /\ heap s' = heap s /\ stack s' = stack s /\ out s' = out s.
+Proof. exact a64_add_offset_ok. Qed.
+Print Assumptions C07_selection_add_offset.
 (* switch: table address + tag, tag in a register or in a spill slot *)
 Theorem C07_selection_switch_dispatch :
   forall (im : image) (s : astate) (sp : Z) (tag : atemp) (l : string) (base off : Z),
@@ -1086,9 +1096,8 @@ Print Assumptions C07_codegen_simulates_heap_example_wide_runs.
    C14_a64_compile_code_small; Proof/A64WfAll.v, A64WfProg.v) under boolean guards on the PROGRAM handed to the code
    generator: no hypothesis looks at the emitted code any more.  New hypotheses (Sem/LabelGuard.v, Sem/WfGuard64.v):
      labels_guard      the label texts are unambiguous (known finding label-collision-name-digits outside it)
-     imm_guard_a64     a type declares at most 1024 xtors (the table dispatch `ADD Xt, Xt, #4k` has a 12-bit immediate:
-                       a real limit of the back end, docs/C14.md); tags_i64
-                       follows and is dropped
+     (the table dispatch `ADD Xt, Xt, #4k` had a 12-bit immediate for every k - a finding, REPAIRED: a larger offset is
+      synthesised in X3, selection lemma C07_selection_add_offset -, so no bound on the xtors beyond tags_i64 is needed)
      reach_guard_a64   28 + cg_fine_defs 14 74 < 262143 instructions: the routine is shorter than the reach of B.cond /
                        ADR (a real limit of the back end) and fits the image
    The name without `_partial` follows the x86-64 convention (C06_codegen_simulates): what remains besides guards on the
@@ -1098,8 +1107,8 @@ From SCC Require Import Sem.LabelGuard Sem.WfGuard64 Proof.A64WfCor.
 Theorem C07_codegen_simulates :
   forall (p : prog) (lc : N) (cs : list acode) (n : nat) (lc' : N) (args : list Z) (fuel : nat) (o : obs),
     lin_check_prog p = true -> ann_check_prog p = true -> AxHeapTyping.entry_ext p = true ->
-    plain_names p = true -> plain_types p = true -> lits_i64 p = true ->
-    labels_guard p = true -> imm_guard_a64 p = true -> reach_guard_a64 p = true ->
+    plain_names p = true -> plain_types p = true -> lits_i64 p = true -> tags_i64 p = true ->
+    labels_guard p = true -> reach_guard_a64 p = true ->
     a64_compile p lc = Ok (cs, n, lc') ->
     List.length args = n -> args_i64 args = true -> heap_fits p args ->
     run_linear fuel p args = o -> snd o <> OOutOfFuel ->
@@ -1111,8 +1120,8 @@ Theorem C07_codegen_correct_linearized :
   forall (a : prog) (lc : N) (cs : list acode) (n : nat) (lc' : N) (args : list Z) (fuel : nat) (o : obs),
     prog_ok a = true ->
     AxHeapTyping.entry_ext (linearize a) = true -> plain_names (linearize a) = true -> plain_types (linearize a) = true ->
-    lits_i64 (linearize a) = true ->
-    labels_guard (linearize a) = true -> imm_guard_a64 (linearize a) = true -> reach_guard_a64 (linearize a) = true ->
+    lits_i64 (linearize a) = true -> tags_i64 (linearize a) = true ->
+    labels_guard (linearize a) = true -> reach_guard_a64 (linearize a) = true ->
     a64_compile (linearize a) lc = Ok (cs, n, lc') ->
     args_i64 args = true -> heap_fits (linearize a) args ->
     run_linear fuel (linearize a) args = o -> defined o = true ->
@@ -1122,8 +1131,8 @@ Print Assumptions C07_codegen_correct_linearized.
 
 (* non-vacuity: the two heap examples pass the new guards; the theorem applied to the first one *)
 Theorem C07_codegen_simulates_example_guards :
-  labels_guard hx_lin = true /\ imm_guard_a64 hx_lin = true /\ reach_guard_a64 hx_lin = true /\
-  labels_guard hxw_lin = true /\ imm_guard_a64 hxw_lin = true /\ reach_guard_a64 hxw_lin = true.
+  labels_guard hx_lin = true /\ reach_guard_a64 hx_lin = true /\
+  labels_guard hxw_lin = true /\ reach_guard_a64 hxw_lin = true.
 Proof. exact hx_lin_guards_a64. Qed.
 Print Assumptions C07_codegen_simulates_example_guards.
 Theorem C07_codegen_simulates_example_applied :
